@@ -190,7 +190,7 @@ type runResult struct {
 	acc   []access
 	pan   string // panic message ("" = returned normally)
 	stack string
-	// a VGPR above v47 was written: lane, register (strayLane < 0: none)
+	// a VGPR above v39 was written: lane, register (strayLane < 0: none)
 	strayLane, strayReg int
 }
 
@@ -317,7 +317,7 @@ func pickVal(r *vlib.PRNG) uint32 {
 	return uint32(x >> 32)
 }
 
-// fillLane writes fresh random data into v0..v39 of one lane and then the
+// fillLane writes fresh random data into v0..v31 of one lane and then the
 // address registers the probe needs, pointing into the lane's own region.
 // owner is the *logical* lane whose region the addresses point into.
 func fillLane(p *probe, s *lstate, lane, owner int, r *vlib.PRNG) {
